@@ -71,10 +71,11 @@ fn source_geometry(d: &Data) -> Value {
                 "verts": s.vertices.as_ref().map(|v| v.iter().map(|p| json!([f(p.x), f(p.y), f(p.z)])).collect::<Vec<_>>())})
         })
         .collect();
-    json!({"global_deviation": f(g), "spaces": spaces, "walls": walls, "windows": windows, "shades": shades})
+    json!({"global_deviation": f(g), "trig_g": cs(g), "spaces": spaces, "walls": walls, "windows": windows, "shades": shades})
 }
 
 fn geom_json(g: &bemodel::WallGeom) -> Value {
+    let cs = |deg: f32| json!([(deg as f64).to_radians().cos(), (deg as f64).to_radians().sin()]);
     let corners: Option<Vec<Value>> = g.to_global_coords_matrix().map(|m| {
         g.polygon
             .iter()
@@ -84,7 +85,7 @@ fn geom_json(g: &bemodel::WallGeom) -> Value {
             })
             .collect()
     });
-    json!({"tilt": f(g.tilt), "azimuth": f(g.azimuth), "position": g.position.map(|p| json!([f(p.x), f(p.y), f(p.z)])),
+    json!({"tilt": f(g.tilt), "azimuth": f(g.azimuth), "trig": {"az": cs(g.azimuth), "t": cs(g.tilt)}, "position": g.position.map(|p| json!([f(p.x), f(p.y), f(p.z)])),
            "polygon": g.polygon.iter().map(|p| json!([f(p.x), f(p.y)])).collect::<Vec<_>>(), "corners": corners})
 }
 
